@@ -469,4 +469,7 @@ def run(ck, tier):
     from .. import ownership as _own2
     ck.rule('R11', 'no unsound memoisation (a caching decorator on a method, or on a function that returns a mutable container) in the modules this property rests on')
     ck.guard(_own2.rule_no_unsafe_memo, ck, cx, 'R11', ('pymodbus.utilities', 'pymodbus.pdu', 'pymodbus.factory', 'pymodbus.bit_read_message', 'pymodbus.bit_write_message', 'pymodbus.register_read_message', 'pymodbus.register_write_message', 'pymodbus.diag_message', 'pymodbus.file_message', 'pymodbus.other_message', 'pymodbus.mei_message'), 'a message is encoded / decoded from a stale or shared value')
+    from ..share import import_findings as _imp2
+    ck.rule('R12', 'MEI objects: (id, length, value) with length = number of value bytes on the wire (shared with C20 R1b)')
+    _imp2(ck, 'C20', 'R12', ('R1b',), 'the object length field on the wire is not the length of the object value that follows')
     return cx.idx
